@@ -279,6 +279,18 @@ def run(ck, facts):
         detail = "(%s)(%s)" % (sym_show(fn_sym), sym_show(arg))
         # acyclic: the call block cannot reach itself
         okc = okc and ind[0][0] not in set().union(*[mcb.cfg.reachable_from(s) for s in mcb.cfg.succ[ind[0][0]]] or [set()])
+    # ... and on EVERY path on which a destructor is present: the only decision before the call is the Some/None test of `destructor`
+    if okc:
+        stray = []
+        for b_, blk in mcb.cfg.blocks.items():
+            if blk.get("cleanup") or blk["term"]["k"] != "switch":
+                continue
+            cnd = mcb.switch_cond(b_)
+            on_destructor = any(x[0] == "proj" and x[2] == ".destructor" for x in sym_walk(cnd) if isinstance(x, tuple) and len(x) > 2)
+            if not on_destructor and ind[0][0] in mcb.cfg.reachable_from(b_):
+                stray.append(sym_show(cnd)[:60])
+        ck.expect(not stray, "R3", "DiplomatCallback::drop/destructor-whenever-present", "only the Some/None test precedes the call",
+                  "Drop for DiplomatCallback skips the destructor depending on %s: a callback whose destructor is present is never released when that condition holds (e.g. a null / zero `data` cookie)" % stray, C.loc(cb))
     ck.expect(okc, "R3", "DiplomatCallback::drop/destructor-once", detail, "callback Drop must call destructor(self.data) exactly once, no loop; found %d indirect calls %s" % (len(ind), detail), C.loc(cb))
 
     # ---- R4 generated destroy functions
@@ -375,6 +387,10 @@ def run(ck, facts):
     # the std::string-backed writer: Rust must never be left with a pointer into storage the string has released
     import c02
     c02.cpp_writer_rules(ck, "R5")
+    # the fixed writer never touches a byte beyond the caller's buffer (C12.R6: cap = size - 1, one NUL at buf[len])
+    import c12
+    sub_w = C.SubCheck(ck, "R3", "", ["R6"])
+    c12.run(sub_w, facts)
 
 
 def run_thorough(ck, facts):
